@@ -35,6 +35,57 @@ pub enum Act {
 pub struct Step {
     pub act: Act,
     pub gt: bool,
+    /// before this step a competitor block arrives first at the next height and then loses to a
+    /// two-block branch whose first block carries a payment (two blocks stored at that height)
+    pub fork_before: bool,
+}
+
+/// a block built by another producer (real Block::create on a node replaying `chain`)
+fn peer_block(p: &Prod, chain: &[Vec<u8>], txs: Vec<Transaction>, ts: u64, gt: bool) -> Result<Vec<u8>, String> {
+    let who = key(7);
+    let mut n = LedgerNode::new(who, p.cfg.clone());
+    for b in chain.iter() {
+        let _ = n.add_block_bytes(b);
+    }
+    let parent = decode_block(chain.last().unwrap());
+    let gtx = if gt {
+        let mut t = crate::node::golden_ticket_tx(parent.hash, parent.difficulty, &who, 0);
+        t.generate(&who.public, 0, 0);
+        Some(t)
+    } else {
+        None
+    };
+    let mut gen = vec![];
+    for mut t in txs {
+        t.generate(&who.public, 0, 0);
+        gen.push(t);
+    }
+    let bc = n.blockchain.clone();
+    let cfg = n.cfg.clone();
+    let storage = &n.storage;
+    match run(async {
+        let bc = bc.read().await;
+        let mut map = crate::node::txmap(gen);
+        Block::create(&mut map, parent.hash, &bc, ts, &who.public, &who.private, gtx, &cfg, storage).await
+    }) {
+        Outcome::Done(Ok(b)) => Ok(crate::node::block_bytes(&b)),
+        o => Err(format!("peer block: {}", o.label())),
+    }
+}
+
+fn set_chain(p: &mut Prod, chain: Vec<Vec<u8>>) {
+    let mut l = RefLedger::default();
+    for b in chain.iter() {
+        l.apply(&decode_block(b));
+    }
+    l.missing_inputs.clear();
+    let blk = decode_block(chain.last().unwrap());
+    p.ledger = l;
+    p.tip_ts = blk.timestamp;
+    p.tip_hash = blk.hash;
+    p.tip_id = blk.id;
+    p.tip_difficulty = blk.difficulty;
+    p.chain = chain;
 }
 
 fn build_tx(p: &mut Prod, act: &Act, ts: u64) -> Option<Transaction> {
@@ -181,9 +232,54 @@ pub fn run_history(g: u64, steps: &[Step], rep: &mut Report) {
             return;
         }
     };
-    let ctx = json!({"g": g, "steps": steps.iter().map(|s| format!("{:?}{}", s.act, if s.gt { "+gt" } else { "" })).collect::<Vec<_>>()});
+    let ctx = json!({"g": g, "steps": steps.iter().map(|s| format!("{}{:?}{}", if s.fork_before { "fork;" } else { "" }, s.act, if s.gt { "+gt" } else { "" })).collect::<Vec<_>>()});
     let mut blocks: Vec<Block> = vec![decode_block(&p.chain[0])];
     for (i, s) in steps.iter().enumerate() {
+        if s.fork_before {
+            // competitor L first (becomes the tip), then M (with a payment K1->K2) and M2 take over
+            let base = p.chain.clone();
+            let ts0 = p.tip_ts + 2 * hb;
+            let k1 = key(1);
+            let h = p.tip_id + 1;
+            let pay = p.ledger.unspent_of(&k1.public).into_iter().filter(|sl| sl.block_id + g > h + 1 && sl.amount >= 10_000).max_by_key(|sl| sl.amount).map(|sl| make_tx(&[sl.clone()], &[(key(2).public, 3_000), (k1.public, sl.amount - 3_000)], &k1, ts0 + 3, b"forkpay"));
+            let lose = make_tx(&[], &[(key(5).public, 0)], &key(5), ts0 + 1, format!("lose{}", i).as_bytes());
+            let next = make_tx(&[], &[(key(5).public, 0)], &key(5), ts0 + 2 * hb + 10, format!("next{}", i).as_bytes());
+            let gt_h = h % 2 == 0;
+            let built = (|| -> Result<(Vec<u8>, Vec<u8>, Vec<u8>), String> {
+                let l = peer_block(&p, &base, vec![lose], ts0 + 1, gt_h)?;
+                let m = peer_block(&p, &base, vec![pay.ok_or("no funds")?], ts0 + 3, gt_h)?;
+                let mut c2 = base.clone();
+                c2.push(m.clone());
+                let m2 = peer_block(&p, &c2, vec![next], ts0 + 2 * hb + 10, !gt_h)?;
+                Ok((l, m, m2))
+            })();
+            match built {
+                Ok((l, m, m2)) => {
+                    for b in [&l, &m, &m2] {
+                        let r = p.node.add_block_bytes(b);
+                        if std::env::var("VERIF_C13_DEBUG").is_ok() {
+                            eprintln!("fork delivery: {:?} id {}", r, decode_block(b).id);
+                        }
+                        let _ = p.twin.add_block_bytes(b);
+                    }
+                    if p.node.tip().1 != decode_block(&m2).hash {
+                        rep.outcome("fork-not-adopted");
+                        return;
+                    }
+                    let mut chain = base;
+                    chain.push(m.clone());
+                    chain.push(m2.clone());
+                    set_chain(&mut p, chain);
+                    blocks.push(decode_block(&m));
+                    blocks.push(decode_block(&m2));
+                    rep.outcome("fork-across-history");
+                }
+                Err(_) => {
+                    rep.outcome("fork-not-buildable");
+                    return;
+                }
+            }
+        }
         let ts = p.tip_ts + 2 * hb;
         rep.transitions += 1;
         if let Some(tx) = build_tx(&mut p, &s.act, ts) {
@@ -273,8 +369,22 @@ pub fn histories(tier: &Tier) -> Vec<(u64, Vec<Step>)> {
         }
         let n = (2 * g + 5) as usize;
         for fee in [0u64, 6_000] {
-            let base: Vec<Step> = (0..n).map(|i| Step { act: Act::Pay(fee), gt: i % 2 == 1 }).collect();
+            let base: Vec<Step> = (0..n).map(|i| Step { act: Act::Pay(fee), gt: i % 2 == 1, fork_before: false }).collect();
             v.push((g, base.clone()));
+            // a fork (loser stored first) at every position; the winner's payment output then
+            // expires g+1 blocks later while two blocks are stored at its height
+            for pos in 1..n.saturating_sub(g as usize + 2) {
+                let mut s = base.clone();
+                s[pos].fork_before = true;
+                v.push((g, s.clone()));
+                for a2 in [Act::SpendOldest, Act::PayTwo(fee)] {
+                    for pos2 in (pos + 1)..n {
+                        let mut s2 = s.clone();
+                        s2[pos2].act = a2.clone();
+                        v.push((g, s2));
+                    }
+                }
+            }
             for pos in 0..n {
                 for a in acts.iter() {
                     let mut s = base.clone();
@@ -319,6 +429,6 @@ pub fn main(tier: Tier, _replay: Option<String>) -> i32 {
         rep.merge(r);
     }
     rep.states = rep.evaluations;
-    rep.required_outcomes = vec!["dust-collected".into(), "rebroadcasts:1".into(), "rebroadcasts:4".into()];
+    rep.required_outcomes = vec!["dust-collected".into(), "rebroadcasts:1".into(), "rebroadcasts:4".into(), "fork-across-history".into()];
     rep.finish()
 }
